@@ -7,6 +7,7 @@ Variable P : kparams.
 Hypothesis Hdead : exists d, kp_rpc_deadline P = Some d /\ (0 <= d)%Z.
 Hypothesis Hgrace : (0 <= kp_grace P)%Z.
 Hypothesis Hka : (0 <= kp_keepalive P)%Z.
+Hypothesis Hctx : kp_kill_ctx_fresh P = true.
 
 Theorem kill_terminates pr b :
   let r := kill P pr b in
@@ -17,7 +18,7 @@ Theorem kill_terminates pr b :
   ((b = ExitsAtOnce \/ b = ExitsAfterDelay) -> k_forced r = false /\ k_clean_exit r = true) /\
   ((b = Ignores \/ b = Frozen \/ b = FailedHandshake) -> k_forced r = true).
 Proof.
-  destruct Hdead as [d [Hd Hd0]]. unfold kill, close_request. rewrite Hd.
+  destruct Hdead as [d [Hd Hd0]]. unfold kill, close_request. rewrite Hd, Hctx.
   destruct b, pr; simpl; repeat split; try lia; try congruence; try tauto;
     try (intros HH; repeat (destruct HH as [HH|HH]; try discriminate HH); try discriminate HH);
     try (exfalso; repeat match goal with H : _ \/ _ |- _ => destruct H end; discriminate).
@@ -31,5 +32,12 @@ Qed.
 End P.
 
 (* without a deadline on the Shutdown request, Kill of a frozen gRPC plugin never returns *)
-Theorem kill_unbounded_hangs g ka : k_returns (kill {| kp_grace := g; kp_rpc_deadline := None; kp_keepalive := ka |} KGRPC Frozen) = false.
+Theorem kill_unbounded_hangs g ka : k_returns (kill {| kp_grace := g; kp_rpc_deadline := None; kp_keepalive := ka; kp_kill_ctx_fresh := true |} KGRPC Frozen) = false.
 Proof. reflexivity. Qed.
+
+(* when the force kill is handed the context of the grace period, a plugin that acknowledged the request and stays is never
+   killed by a runner that honours its context, and Kill does not return *)
+Theorem kill_stale_ctx_leaves_process g d ka pr :
+  let r := kill {| kp_grace := g; kp_rpc_deadline := Some d; kp_keepalive := ka; kp_kill_ctx_fresh := false |} pr Ignores in
+  k_exited r = false /\ k_returns r = false.
+Proof. destruct pr; split; reflexivity. Qed.
